@@ -460,6 +460,15 @@ class Run:
             pairs = sorted(ent_code(e) * 100000 + c._oid for e, c in w.get(object))
             return ','.join(f'{p // 100000}:{p % 100000}' for p in pairs) or '-'
         out.append('getall ' + q(getall_line))
+
+        def proto_line(pe):
+            # a query type that is no base class of anything (a runtime-checkable Protocol): the three
+            # kinds of query must still tell one story
+            P = desper.EventHandler
+            return (f'{int(w.has_component(pe, P))} {int(w.get_component(pe, P) is not None)} '
+                    f'{int(any(x == pe for x, _ in w.get(P)))}')
+        for e in self.ents:
+            out.append(f'hasx {e} ' + q(lambda: proto_line(ent_py(e))))
         out.append('entities ' + q(lambda: ','.join(map(str, sorted(ent_code(e) for e in w.entities))) or '-'))
         def procs_line():
             res = w.processors
